@@ -251,6 +251,8 @@ class InstanceRun:
             cmd += ["--memory-leak-check"]
         cmd += ["--trace", "--json-ui", "--verbosity", "8"]
         self.cmdline = " ".join(cmd)
+        with open(os.path.join(self.dir, "cbmc_cmd.txt"), "w") as f:
+            f.write(self.cmdline + "\n")
         rc, out, err, t = run(cmd, timeout=i.timeout, mem_gb=i.mem_gb)
         with open(os.path.join(self.dir, "cbmc.json"), "w") as f:
             f.write(out)
@@ -310,7 +312,12 @@ class InstanceRun:
                                              "decoded": self.decode(inp)})
                     elif verdict in ("failed", "hang"):
                         # the real library violates a harness check on an input CBMC's model accepted
-                        self.failures.append({"property": pname, "description": "native replay of witness '%s' fails although the model passes" % label,
+                        why = ""
+                        for ln in rerr.split("\n"):
+                            if ln.startswith("REPLAY-CHECK-FAILED:") or ln.startswith("SUMMARY: ") or "runtime error:" in ln:
+                                why = ln.strip()[:300]
+                                break
+                        self.failures.append({"property": pname, "description": "native replay of witness '%s' fails although the model passes: %s" % (label, why),
                                               "kind": "native-divergence", "replay": rdir, "confirmed": True,
                                               "stderr": rerr[-1500:], "input_hex": inp.hex(), "decoded": self.decode(inp)})
                         viol = True
